@@ -115,3 +115,20 @@ Theorem gen_build_miter_defaults_eq l r :
   NoDup (dkeys (gates l)) -> NoDup (dkeys (gates r)) ->
   gen_build_miter_defaults size_fuel size_fuel size_fuel l r = build_miter l r "circuit1" "circuit2".
 Proof. intros Hl Hr. unfold gen_build_miter_defaults. apply gen_build_miter_eq; assumption. Qed.
+
+(* ---------------------------------------------------------------- summary (Properties/C13.v) *)
+Theorem miter_regenerated :
+  (forall l r ln rn, NoDup (dkeys (gates l)) -> NoDup (dkeys (gates r)) ->
+     gen_build_miter size_fuel size_fuel size_fuel l r ln rn = build_miter l r ln rn) /\
+  (forall l r ln rn, WF l -> WF r ->
+     gen_build_miter size_fuel size_fuel size_fuel l r ln rn = build_miter l r ln rn) /\
+  (forall l r, NoDup (dkeys (gates l)) -> NoDup (dkeys (gates r)) ->
+     gen_build_miter_defaults size_fuel size_fuel size_fuel l r = build_miter l r "circuit1" "circuit2") /\
+  (forall z, gen_generate_pairwise_xor z = generate_pairwise_xor (Z.to_nat z)) /\
+  (forall n, gen_generate_pairwise_xor (Z.of_nat n) = generate_pairwise_xor n) /\
+  (forall p z, gen__generate_labels p z = generate_labels p (Z.to_nat z)).
+Proof.
+  split; [exact gen_build_miter_eq|]. split; [exact gen_build_miter_eq_wf|].
+  split; [exact gen_build_miter_defaults_eq|]. split; [exact gen_generate_pairwise_xor_eq|].
+  split; [exact gen_generate_pairwise_xor_nat|exact gen__generate_labels_eq].
+Qed.
